@@ -26,18 +26,18 @@ Definition clear (s : st) : st :=
   mk (buf s) (ext s) (rwl s) (closing s) (lclosed s) (rclosed s) (live s) (writing s) (lwl s) [].
 
 Section R.
-  Variables (hold : bool) (hook : list hop) (rmp lws lmp : N).
+  Variables (hold : bool) (hook : list hop) (radj : option N) (rmp lws lmp : N).
   Fixpoint run_ops (s : st) (ops : list op) : list string * st :=
     match ops with
     | [] => ([], s)
-    | o :: r => let s1 := step hold hook rmp lws lmp (clear s) o in
+    | o :: r => let s1 := step hold hook radj rmp lws lmp (clear s) o in
                 let '(l, s2) := run_ops s1 r in (show_evs (log s1) :: l, s2)
     end.
 End R.
 
-(** case = (hold, hook, (rw, rmp, lws, lmp), ops) *)
-Definition run_show (c : bool * list hop * (N * N * N * N) * list op) : string :=
-  let '(hold, hook, (rw, rmp, lws, lmp), ops) := c in
-  let '(l, s) := run_ops hold hook rmp lws lmp (init rw lws) ops in
+(** case = (hold, hook, radj, (rw, rmp, lws, lmp), ops) *)
+Definition run_show (c : bool * list hop * option N * (N * N * N * N) * list op) : string :=
+  let '(hold, hook, radj, (rw, rmp, lws, lmp), ops) := c in
+  let '(l, s) := run_ops hold hook radj rmp lws lmp (init rw lws) ops in
   String.concat " " l ++ " |rw=" ++ show_N (rwl s) ++ " lw=" ++ show_N (lwl s)
   ++ " lc=" ++ show_bool (lclosed s) ++ " rc=" ++ show_bool (rclosed s).
